@@ -94,14 +94,24 @@ func (hs *clientHandshakeStateTLS13) decompressCert(m utlsCompressedCertificateM
 		return nil, fmt.Errorf("unsupported algorithm (%d)", m.algorithm)
 	}
 
+	if m.uncompressedLength+4 > maxHandshakeCertificateMsg {
+		// The decompressed message is a Certificate message and is subject to
+		// the same size limit; do not allocate more on the peer's say-so.
+		c.sendAlert(alertBadCertificate)
+		return nil, fmt.Errorf("specified len (%d) exceeds the certificate message size limit", m.uncompressedLength)
+	}
+
 	rawMsg := make([]byte, m.uncompressedLength+4) // +4 for message type and uint24 length field
 	rawMsg[0] = typeCertificate
 	rawMsg[1] = uint8(m.uncompressedLength >> 16)
 	rawMsg[2] = uint8(m.uncompressedLength >> 8)
 	rawMsg[3] = uint8(m.uncompressedLength)
 
-	n, err := decompressed.Read(rawMsg[4:])
-	if err != nil && !errors.Is(err, io.EOF) {
+	// A single Read may legitimately return less than is available (e.g. at a
+	// block or flush boundary of the compressed stream), so read until the
+	// specified length is reached or the stream ends.
+	n, err := io.ReadFull(decompressed, rawMsg[4:])
+	if err != nil && !errors.Is(err, io.EOF) && !errors.Is(err, io.ErrUnexpectedEOF) {
 		c.sendAlert(alertBadCertificate)
 		return nil, err
 	}
@@ -111,6 +121,17 @@ func (hs *clientHandshakeStateTLS13) decompressCert(m utlsCompressedCertificateM
 		// https://datatracker.ietf.org/doc/html/rfc8879#section-4
 		c.sendAlert(alertBadCertificate)
 		return nil, fmt.Errorf("decompressed len (%d) does not match specified len (%d)", n, m.uncompressedLength)
+	}
+	// The stream must end here: this rejects a message that decompresses to
+	// more than the specified length and lets the decompressor verify its
+	// trailing checksum, if any.
+	var extra [1]byte
+	if k, err := io.ReadFull(decompressed, extra[:]); k != 0 || !errors.Is(err, io.EOF) {
+		c.sendAlert(alertBadCertificate)
+		if k != 0 {
+			return nil, fmt.Errorf("decompressed len exceeds specified len (%d)", m.uncompressedLength)
+		}
+		return nil, fmt.Errorf("corrupted compressed certificate message: %w", err)
 	}
 	certMsg := new(certificateMsgTLS13)
 	if !certMsg.unmarshal(rawMsg) {
